@@ -297,15 +297,28 @@ func c12Schema(c *core.Ctx, modes []c12mode, s gen.S, sc *openapi3.Schema, comp 
 		}
 		seen[vCanon] = true
 		rejected := false
-		for rep := 0; rep < 2; rep++ {
+		_, hasTyped := typedSlices(gen.CloneValue(v))
+		for rep := 0; rep < 3; rep++ {
 			repName := "float64"
 			mk := func() any { return gen.CloneValue(v) }
 			if rep == 1 {
 				repName = "json.Number"
 				mk = func() any { return asNumberRep(v) }
 			}
+			if rep == 2 {
+				// string lists held as []string, the way a Go caller passes them
+				if !hasTyped {
+					break
+				}
+				repName = "typed-slices"
+				mk = func() any { tv, _ := typedSlices(gen.CloneValue(v)); return tv }
+				c12Pending, c12Held = c12Held, nil
+			}
 			if c12Case(c, modes, s, sc, comp, v, mk, repName) {
 				rejected = true
+			}
+			if rep == 2 {
+				c12RecheckHeld(c) // the errors of the previous typed validation, now that another value has been validated
 			}
 		}
 		if rejected {
@@ -319,7 +332,7 @@ func c12Case(c *core.Ctx, modes []c12mode, s gen.S, sc *openapi3.Schema, comp st
 	var base bool
 	anyReject := false
 	for mi, m := range modes {
-		if m.name == "IsMatchingJSON<T>" && repName == "json.Number" {
+		if m.name == "IsMatchingJSON<T>" && repName != "float64" {
 			continue
 		}
 		kv := mk()
@@ -414,7 +427,59 @@ func normNumbers(v any) any {
 	return v
 }
 
+// errors of typed-slice validations are kept (callers log or return them later) and looked at again after the next such
+// validation: what they quote must not have changed in the meantime
+type c12held struct {
+	se     *openapi3.SchemaError
+	quoted string
+	desc   string
+}
+
+var c12Held, c12Pending []c12held
+
+func c12RecheckHeld(c *core.Ctx) {
+	for _, h := range c12Pending {
+		if now := gen.Canon(normNumbers(untypeSlices(h.se.Value))); now != h.quoted {
+			c.Violate(map[string]string{"kind": "quoted_value_changed_after_later_validation", "field": h.se.SchemaField}, map[string]any{"case": h.desc, "quoted_then": h.quoted, "quoted_now": now},
+				fmt.Sprintf("%s\nthe error quoted %s when it was returned and quotes %s after later validations", h.desc, h.quoted, now))
+		}
+		c.Cover("pointer_checked", "held error looked at again")
+	}
+	c12Pending = nil
+}
+
+// untypeSlices turns []string back into []any (for comparison with the JSON-shaped original).
+func untypeSlices(v any) any {
+	switch x := v.(type) {
+	case []string:
+		o := make([]any, len(x))
+		for i, e := range x {
+			o[i] = e
+		}
+		return o
+	case []any:
+		o := make([]any, len(x))
+		for i, e := range x {
+			o[i] = untypeSlices(e)
+		}
+		return o
+	case map[string]any:
+		o := make(map[string]any, len(x))
+		for k, e := range x {
+			o[k] = untypeSlices(e)
+		}
+		return o
+	}
+	return v
+}
+
 func c12CheckPointer(c *core.Ctx, s gen.S, comp string, v, kv any, rep, mode string, se *openapi3.SchemaError) {
+	if rep == "typed-slices" {
+		kv = untypeSlices(kv)
+		if len(c12Held) < 64 {
+			c12Held = append(c12Held, c12held{se, gen.Canon(normNumbers(untypeSlices(se.Value))), fmt.Sprintf("schema=%s value=%s mode=%s field=%s", gen.Canon(s), gen.Canon(v), mode, se.SchemaField)})
+		}
+	}
 	first := append([]string{}, se.JSONPointer()...)
 	_ = se.Error() // rendering the message must not disturb the pointer
 	ptr := se.JSONPointer()
@@ -436,7 +501,7 @@ func c12CheckPointer(c *core.Ctx, s gen.S, comp string, v, kv any, rep, mode str
 				bad = "enclosing value is not an object"
 			} else if _, present := obj[ptr[len(ptr)-1]]; present {
 				bad = "reported missing key is present"
-			} else if !reflect.DeepEqual(normNumbers(se.Value), normNumbers(cont)) {
+			} else if !reflect.DeepEqual(normNumbers(untypeSlices(se.Value)), normNumbers(cont)) {
 				bad = "quoted value is not the enclosing object"
 			}
 		}
@@ -444,7 +509,7 @@ func c12CheckPointer(c *core.Ctx, s gen.S, comp string, v, kv any, rep, mode str
 		target, ok := resolvePointer(kv, ptr)
 		if !ok {
 			bad = "pointer does not resolve inside the value"
-		} else if !reflect.DeepEqual(normNumbers(se.Value), normNumbers(target)) {
+		} else if !reflect.DeepEqual(normNumbers(untypeSlices(se.Value)), normNumbers(target)) {
 			bad = "quoted value differs from the value at the pointer"
 		}
 	}
